@@ -17,7 +17,9 @@ import (
 	"verif/sim/host"
 	"verif/sim/wl/bincalls"
 	"verif/sim/wl/closures"
+	"verif/sim/wl/condq"
 	"verif/sim/wl/fanout"
+	"verif/sim/wl/funcs"
 	"verif/sim/wl/hostcall"
 	"verif/sim/wl/ifacewrap"
 	"verif/sim/wl/methods"
@@ -57,6 +59,8 @@ var templates = []Template{
 	{"rwmap", rwmap.Src, rwmap.Run, []int{2, 3}},
 	{"bincalls", bincalls.Src, bincalls.Run, []int{2, 2}},
 	{"ifacewrap", ifacewrap.Src, ifacewrap.Run, []int{2, 2}},
+	{"condq", condq.Src, condq.Run, []int{2, 2, 2}},
+	{"funcs", funcs.Src, funcs.Run, []int{2, 2}},
 }
 
 var (
